@@ -1146,6 +1146,9 @@ func stdIntrinsic(name string, fn *ssa.Function) intrinsicFn {
 			if s, _ := a[0].(*SliceV); s != nil {
 				sv = &StrV{B: x.bytesOf(s)}
 			}
+			if s, _ := a[0].(*SliceV); s == nil || (s.LenT == nil && s.Len == 0) {
+				return x.newErr("unexpected end of JSON input")
+			}
 			ti := x.tokenOf(sv)
 			if ti != nil && ti.kind == "dec" {
 				// a JSON number: into any/float64 it becomes the nearest float64, into an integer type the exact value
